@@ -94,9 +94,9 @@ package crypto
 //@   assume-ensures [L-cofactor] torsionfree(result.curve, px(result), py(result))
 
 //@ func (*ECPoint).ToECDSAPubKey
-//@   props C06
+//@   props C06 C18
 //@   requires p != nil && wfPoint(p)
-//@   ensures result != nil && fresh(result)
+//@   ensures result != nil && fresh(result) && result.X != nil && result.Y != nil && val(result.X) == px(p) && val(result.Y) == py(p)
 
 //@ func FlattenECPoints
 //@   props C06 C17 C15 C10
